@@ -23,7 +23,32 @@ ENGINES["diffsim"] = {
                      "stub": ["transport: marshal -> bytes -> unmarshal in process, optional injected transport error at request k"]},
 }
 
+ENGINES["tasksim"] = {
+    "serves": ["C16"],
+    "kind": "real goroutines parked at harness-owned blocking points and simhook yields, released one at a time by the seeded scheduler inside a synctest bubble",
+    "real_vs_stub": {"real": ["app/ocache (oCache, entry) with verif yield points"],
+                     "stub": ["LoadFunc and Object (harness-owned: every load/Close/TryClose is a scheduler-released blocking point; outcomes chosen by the seed)",
+                              "GC ticker disabled; GC runs as an explicit operation with fake-clock jumps past the TTL"]},
+}
+
 PROPS = {
+    "C16": {
+        "engine": "tasksim",
+        "level": "exploration",
+        "budget": {"quick": 40, "thorough": 600},
+        "race_leg": True,
+        "rule": "one run = 2-4 concurrent tasks (15% long runs: 3-6 tasks x 8-30 ops) issuing Get/Pick/Add/Remove/RemoveSame/TryRemove/GC/Close/DoLockedIfNotExists on 1-2 ids; "
+                "the seeded scheduler orders every pass through load start/end, Close start/end, TryClose verdict (true/false) and 14 yield points inside ocache, "
+                "chooses load outcomes (ok/error/nil), close errors, caller-context cancellations and clock jumps past the TTL; then the cache is closed. "
+                "Non-trivial: >=6 scheduler grants and >=1 instance created. Distinct = distinct event-kind sequences; interleavings = distinct scheduler decision sequences.",
+        "assumptions": COMMON_ASSUMPTIONS + ["interleavings are at the granularity of harness blocking points and the yield points added under build tag verif; data races between yields are left to the -race leg of the thorough tier",
+                                             "the fake clock is not advanced while cache.Close is in progress (its 10 s closeTimeout trade-off is documented behaviour, not a finding)"],
+        "technique": "deterministic simulation: seeded task scheduler over real goroutines (synctest bubble, yield hooks), history-predicate oracles on load/close events",
+        "level_text": "Seeded exploration of interleavings of the real ocache code at its blocking points; oracles are predicates over the recorded load/close/return history "
+                      "(one live instance per id, no double close, nothing returned unloaded or after its removal completed, nothing left open after shutdown, no panic, no task blocked forever).",
+        "level_note": "ocache is real; the loader and objects are harness stubs; scheduler granularity = yield points",
+        "expected_probes": [],
+    },
     "C07": {
         "engine": "diffsim",
         "level": "exploration",
